@@ -243,7 +243,9 @@ pub fn build_node<K: SymK, const N: usize, const JOIN_EQ: bool>() {
         let spec: ScmapCompress<u8> = ScmapCompress::new();
         build_node_from(t.stranded, &spec, &index, set, seed, &mut path, &mut seq)
     } else {
-        let spec = SimpleCompress::new(|a: u8, b: &u8| a.wrapping_add(*b));
+        // a reduction whose FOLD is order-independent (f(f(a,x),y) == f(f(a,y),x)) but which is not
+        // associative as a binary operation: it tells "folded k-mer by k-mer" from "summaries merged"
+        let spec = SimpleCompress::new(|a: u8, b: &u8| a.wrapping_add(b.wrapping_mul(2)).wrapping_add(1));
         build_node_from(t.stranded, &spec, &index, set, seed, &mut path, &mut seq)
     };
 
@@ -274,7 +276,7 @@ pub fn build_node<K: SymK, const N: usize, const JOIN_EQ: bool>() {
     while i < N {
         assert!(after.contains(i) == avail[i]);
         if avail0[i] && !avail[i] && i != seed {
-            fold = fold.wrapping_add(t.data[i]);
+            fold = fold.wrapping_add(t.data[i].wrapping_mul(2)).wrapping_add(1);
         }
         i += 1;
     }
